@@ -112,6 +112,8 @@ type Chain struct {
 	Txs       int64
 	// LastPanicStack holds the goroutine stack of the last Begin/EndBlock panic.
 	LastPanicStack string
+	// Tape, when non-nil, records the stream of transactions / block boundaries / environment actions (C16, C20).
+	Tape *Tape
 }
 
 type TxResult struct {
@@ -260,6 +262,9 @@ func (c *Chain) NextBlock(dt time.Duration) {
 	c.EndAndCommit()
 	c.Header.Time = c.Header.Time.Add(dt)
 	c.begin()
+	if c.Tape != nil {
+		c.Tape.Recs = append(c.Tape.Recs, TapeRec{Kind: "block", Dt: int64(dt), AppHash: fmt.Sprintf("%x", c.App.LastCommitID().Hash), Height: c.Header.Height})
+	}
 }
 
 // EndAndCommit ends the current block, commits, and prepares (but does not begin) the next header.
@@ -298,7 +303,11 @@ func (c *Chain) BuildTx(signer *Acct, msgs ...sdk.Msg) []byte {
 func (c *Chain) DeliverRaw(bz []byte) TxResult {
 	res := c.App.DeliverTx(abci.RequestDeliverTx{Tx: bz})
 	c.Txs++
-	return TxResult{Code: res.Code, Log: res.Log, Events: res.Events, Data: res.Data, Gas: res.GasUsed}
+	out := TxResult{Code: res.Code, Log: res.Log, Events: res.Events, Data: res.Data, Gas: res.GasUsed}
+	if c.Tape != nil {
+		c.Tape.Recs = append(c.Tape.Recs, TapeRec{Kind: "tx", Tx: bz, Result: ResultDigest(out), ResultNoGas: ResultDigestNoGas(out)})
+	}
+	return out
 }
 
 // Deliver signs and delivers msgs as one real transaction.
